@@ -100,7 +100,9 @@ class ErrorHandling:
 
         expected = {}  # value: token
 
-        for token_name in self.expected_tokens:
+        # the expected tokens come from sets of strings (the parser tables): in alphabetical order the message
+        # does not depend on the hash seed of the process
+        for token_name in sorted(self.expected_tokens):
             value = getattr(self.lexer, token_name, None)
             if token_name == 'ID':
                 # a lot of other tokens could be ID
